@@ -1209,6 +1209,11 @@ func areaConc(r *Rng, n int, dir string) (*AreaOut, error) {
 		}
 	}
 
+	// --- zero intervals (oracle only)
+	if err := zeroIntervalCancel(out); err != nil {
+		return nil, err
+	}
+
 	// --- the receiver stays usable while an event it publishes waits for a slow subscriber
 	{
 		out.OracleN++
